@@ -251,7 +251,8 @@ def _alarm(signum, frame):
 
 
 def _parse_all(args) -> dict:
-	cases, kind = args
+	cases, kind, *rest = args
+	limit = rest[0] if rest else 5
 	compat.patch_rules()
 	import sys
 	if compat.REPO not in sys.path:
@@ -265,7 +266,7 @@ def _parse_all(args) -> dict:
 	signal.signal(signal.SIGALRM, _alarm)
 	import warnings
 	warnings.simplefilter('ignore', SyntaxWarning)
-	failures, machinery = [], []
+	failures, machinery, slow = [], [], []
 	accepted = rejected = 0
 	for case in cases:
 		text = case['text']
@@ -283,7 +284,7 @@ def _parse_all(args) -> dict:
 			if ref != want:
 				machinery.append(f'spec and CPython disagree on {text!r}: {want} vs {ref}')
 				continue
-		signal.alarm(5)
+		signal.alarm(limit)
 		try:
 			got_tree = parser.parse(source, 'entry').simplify()
 			got = tuple(canon_own_stmt(s) for s in got_tree[1])
@@ -296,8 +297,11 @@ def _parse_all(args) -> dict:
 			outcome, got = 'crash', f'{type(e).__name__}: {str(e)[:100]}'
 		finally:
 			signal.alarm(0)
+		if outcome == 'timeout' and limit < 100:
+			slow.append(case)  # decided later, alone and with a long limit: slowness under load is not a verdict
+			continue
 		if outcome in ('timeout', 'crash'):
-			failures.append({'clause': 'Terminates' if outcome == 'timeout' else 'RejectsWithSyntaxError', 'detail': f'{text!r}: {got or "no answer within 5 s"}', 'text': text, 'kind': f'{kind}:{case.get("top", "")}'})
+			failures.append({'clause': 'Terminates' if outcome == 'timeout' else 'RejectsWithSyntaxError', 'detail': f'{text!r}: {got or f"no answer within {limit} s"}', 'text': text, 'kind': f'{kind}:{case.get("top", "")}'})
 			continue
 		if kind != 'mutant':
 			if outcome == 'syntax':
@@ -344,7 +348,7 @@ def _parse_all(args) -> dict:
 					fresh = f'{type(e).__name__}'
 				if fresh != got:
 					failures.append({'clause': 'VerdictIsFunctionOfText', 'detail': f'{text!r}: a parser with history reports {got[:60]!r}, a new parser {fresh[:60]!r}', 'text': text, 'kind': 'mutant'})
-	return {'failures': failures, 'machinery': machinery, 'accepted': accepted, 'rejected': rejected}
+	return {'failures': failures, 'machinery': machinery, 'accepted': accepted, 'rejected': rejected, 'slow': [(c, kind) for c in slow]}
 
 
 def run(ctx: Ctx) -> int:
@@ -384,6 +388,11 @@ def run(ctx: Ctx) -> int:
 	jobs = [(cases[i::nproc], 'expr') for i in range(nproc)] + [(stmt_cases[i::nproc], 'stmt') for i in range(nproc)] + [(mutants[i::nproc], 'mutant') for i in range(nproc)]
 	with ProcessPoolExecutor(max_workers=nproc) as ex:
 		results = list(ex.map(_parse_all, jobs))
+	slow = [x for r in results for x in r['slow']]
+	if slow:
+		ctx.log(f'{len(slow)} sentences gave no answer within 5 s under load; deciding them one per process with a 300 s limit')
+		with ProcessPoolExecutor(max_workers=4) as ex:
+			results += list(ex.map(_parse_all, [([c], kind, 300) for c, kind in slow]))
 	machinery = [m for r in results for m in r['machinery']]
 	if machinery:
 		raise Machinery(f'{len(machinery)} sentences where spec and CPython disagree, e.g. {machinery[0]}')
@@ -403,6 +412,7 @@ def run(ctx: Ctx) -> int:
 		'expression_sentences': len(cases),
 		'statement_sentences': len(stmt_cases),
 		'mutated_sentences': len(mutants),
+		'slow_sentences_decided_alone': len(slow),
 		'exhaustive': True,
 		'samples': [cases[len(cases) // 2]['text'], stmt_cases[5]['text'], mutants[3]['text']],
 	}
